@@ -4,7 +4,8 @@ from vlib import Check, zlit, coq_bool
 
 FLT = {"none": "NoFault", "append": "FailAppend", "finish": "FailFinish"}
 
-# the fix that repaired the pinned upstream defect is not committed yet; if it is reverted the same input fails again
+# the pinned upstream defect (failed append orphans the popped file) is repaired by /repo commit f071b55;
+# if the repair is reverted the hang history fails again and is reported under this key (not a known finding)
 HANG_KEY = "C16-failed-push-orphans-file"
 
 
@@ -35,7 +36,7 @@ def run(pid, tier, seed, replay):
     ck = Check(pid, tier, seed, level="proof")
     n = 1500 if tier == "quick" else 40000
     nstress = 40 if tier == "quick" else 1500
-    ck.proof_step(extra_targets=["Model/SpillPool.vo"])
+    ck.proof_step(extra_targets=["Model/SpillPool.vo", "Model/SpillPoolFine.vo"])
     ok, out, dt = vlib.cargo_build("h_physplan", bin="c16")
     ck.log("cargo build: ok=%s (%.0fs)" % (ok, dt))
     if not ok:
@@ -54,11 +55,13 @@ def run(pid, tier, seed, replay):
     for c in sched:
         if not c["ok"]:
             case = {k: c.get(k) for k in ("chan", "nw", "thr", "ops", "outs", "hang")}
+            failed_before = any(o.get("r") == "err" for o in (c.get("outs") or []))
             ck.fail_input("spill channel (call-granularity schedule): " + c["why"], case,
-                          key=HANG_KEY if c.get("hang") else None)
+                          key=HANG_KEY if c.get("hang") and failed_before else None)
     for c in stress:
         if not c["ok"]:
-            ck.fail_input("spill channel (threaded stress): " + c["why"], c, key=HANG_KEY if c.get("hang") else None)
+            ck.fail_input("spill channel (threaded stress): " + c["why"], c,
+                          key=HANG_KEY if c.get("hang") and c.get("failed") else None)
     good = [c for c in sched if c["ok"] and not c.get("panic")]
     pre = "From DF Require Import Base.Prelude Model.SpillPool.\nOpen Scope Z_scope."
     bad, log, dt = vlib.coq_eval_cases(pre, "c16_case", "c16_check", [render(c) for c in good], shard=250, tag="c16")
@@ -69,7 +72,7 @@ def run(pid, tier, seed, replay):
                    % (len(bad), str(good[first] if isinstance(first, int) else log)[:2500]))
     # bounded exploration of the critical-section-granularity model (a test, not a theorem)
     rc2, txt = vlib.coq_eval_term("From DF Require Import Base.Prelude Model.SpillPool Model.SpillPoolFine.\nOpen Scope Z_scope.",
-                                  "explore_suite (%s)" % ("1%nat" if tier == "quick" else "2%nat"), timeout=1500, tag="c16_explore")
+                                  "explore_suite (%s)" % ("2%nat" if tier == "quick" else "3%nat"), timeout=1500, tag="c16_explore")
     import re
     m = re.search(r"= \((\d+)(?:%Z)?, (true|false)\)", txt)
     if rc2 != 0 or not m:
